@@ -8,7 +8,7 @@ use serde_json::{json, Value};
 use sourcemap::{DecodedMap, SourceMap, SourceMapIndex};
 
 /// drive one boxed iterator of already-projected items through the session
-fn session<'a>(mut it: Box<dyn Iterator<Item = Value> + 'a>, cap: usize, steps: &[Value]) -> Value {
+pub fn session<'a>(mut it: Box<dyn Iterator<Item = Value> + 'a>, cap: usize, steps: &[Value]) -> Value {
     let mut outs: Vec<Value> = vec![];
     let one = |t: Option<Value>| match t { Some(t) => json!([t]), None => json!([]) };
     for (i, st) in steps.iter().enumerate() {
